@@ -39,7 +39,10 @@ RULE = ("an enable mask is 18 bits (bias x3, bias_walk x3, noise x3, scale_misal
         "them (and a fixed corpus, and one of the two runs of every direct statement test) use magnitudes "
         "spanning decades: scale/misalignment errors 2^-18..2^-30 (pure scale factors with zero "
         "misalignment included), biases 2^-40, 2^-3, 2^6, all exactly representable; groups of 2-3 model "
-        "objects alive at once are updated interleaved without reset_estimates; a "
+        "objects alive at once are updated interleaved without reset_estimates; 35% of the constructor "
+        "cases use whole-number values and every argument is passed in a random container/dtype (int64/int32/"
+        "float32/float64 ndarray, list/tuple of ints or floats, bare scalar, None) while updates stay fractional; "
+        "walking biases are also simulated with an exactly zero constant part; a "
         "case is distinct by (mask, values) resp. by its full input tuple")
 
 XYZ = 'xyz'
@@ -89,21 +92,53 @@ def corner_masks():
     return out
 
 
-def gen_args(rng, mask, negatives=True):
-    """ints over fixed denominators: b, w, n over 8; s over 16."""
-    bb, wb, nb, sb = mask_bits(mask)
+WHOLE_FORMS = ['i64', 'i32', 'list_int', 'tuple_int', 'f32', 'list_float', 'tuple_float', 'f64']
+FRAC_FORMS = ['f64', 'f64', 'f32', 'list_float', 'tuple_float']
+DENS = dict(b=8, w=8, n=8, s=16)
 
-    def val(bit, hi):
+
+def assign_forms(rng, args):
+    """How each constructor argument is passed: float64 / float32 / integer ndarray, (nested) list or tuple
+    of floats / ints, a bare scalar (all entries equal) or None (all entries zero).  Integer forms are used
+    only when every entry is a whole number, so the VALUES (and hence the model) are unchanged."""
+    forms = {}
+    for k in 'bwns':
+        v = args[k]
+        whole = all(x % DENS[k] == 0 for x in v)
+        opts = list(WHOLE_FORMS if whole else FRAC_FORMS)
+        if len(set(v)) == 1:
+            opts += ['scalar_int', 'scalar_int'] if whole else ['scalar_float']
+            if v[0] == 0:
+                opts += ['none']
+        forms[k] = rng.choice(opts)
+    args['forms'] = forms
+    return args
+
+
+def gen_args(rng, mask, negatives=True, whole=None):
+    """ints over fixed denominators: b, w, n over 8; s over 16.  whole: every value is a whole number
+    (so that integer-typed arguments are possible)."""
+    bb, wb, nb, sb = mask_bits(mask)
+    if whole is None:
+        whole = rng.random() < 0.35
+
+    def val(bit, hi, den):
+        if whole:
+            k = den * rng.randint(1, 2)
+        else:
+            k = rng.randint(1, hi)
         if bit:
-            return rng.randint(1, hi)
+            return k
         if negatives and rng.random() < 0.3:
-            return -rng.randint(1, hi)
+            return -k
         return 0
-    return dict(mask=mask, b=[val(x, 16) for x in bb], w=[val(x, 16) for x in wb],
-                n=[val(x, 16) for x in nb], s=[val(x, 16) for x in sb])
+    args = dict(mask=mask, b=[val(x, 16, 8) for x in bb], w=[val(x, 16, 8) for x in wb],
+                n=[val(x, 16, 8) for x in nb], s=[val(x, 16, 16) for x in sb])
+    return assign_forms(rng, args)
 
 
 def arrays_of(args):
+    """the VALUES of the four constructor arguments as float64 arrays (for the oracles)"""
     b = np.array(args['b']) / 8.0
     w = np.array(args['w']) / 8.0
     n = np.array(args['n']) / 8.0
@@ -111,11 +146,50 @@ def arrays_of(args):
     return b, n, w, S
 
 
+def _nest(a, seq, conv):
+    if a.ndim == 1:
+        return seq(conv(x) for x in a)
+    return seq(_nest(row, seq, conv) for row in a)
+
+
+def in_form(a, form):
+    if form == 'f64':
+        return a
+    if form == 'f32':
+        return a.astype(np.float32)
+    if form == 'i64':
+        return a.astype(np.int64)
+    if form == 'i32':
+        return a.astype(np.int32)
+    if form == 'list_float':
+        return _nest(a, list, float)
+    if form == 'tuple_float':
+        return _nest(a, tuple, float)
+    if form == 'list_int':
+        return _nest(a, list, int)
+    if form == 'tuple_int':
+        return _nest(a, tuple, int)
+    if form == 'scalar_int':
+        return int(a.flat[0])
+    if form == 'scalar_float':
+        return float(a.flat[0])
+    if form == 'none':
+        return None
+    raise ValueError(form)
+
+
+def ctor_kwargs(args):
+    """the constructor arguments in the container / dtype the case prescribes"""
+    b, n, w, S = arrays_of(args)
+    f = args.get('forms') or {}
+    return dict(bias_sd=in_form(b, f.get('b', 'f64')), noise=in_form(n, f.get('n', 'f64')),
+                bias_walk=in_form(w, f.get('w', 'f64')), scale_misal_sd=in_form(S, f.get('s', 'f64')))
+
+
 def construct(args):
     from pyins.inertial_sensor import EstimationModel
-    b, n, w, S = arrays_of(args)
     try:
-        return EstimationModel(bias_sd=b, noise=n, bias_walk=w, scale_misal_sd=S)
+        return EstimationModel(**ctor_kwargs(args))
     except ValueError:
         return None
 
@@ -410,6 +484,7 @@ def gen_f(rng):
     for k in range(3):
         if args['b'][k] <= 0 and args['w'][k] > 0:
             args['w'][k] = 0
+    assign_forms(rng, args)
     zT = [rng.choice([-6, -3, -1, 1, 2, 5, 0]) for _ in range(9)]
     zb = [rng.choice([-6, -3, -1, 1, 2, 5, 0]) for _ in range(3)]
     return dict(args=args, zT4=zT, zb4=zb)
@@ -453,7 +528,7 @@ def direct_checks(args, seed, full=True):
     b, n, w, S = arrays_of(args)
     should_raise = bool(any(w[a] > 0 and b[a] <= 0 for a in range(3)))
     try:
-        em = EstimationModel(bias_sd=b, noise=n, bias_walk=w, scale_misal_sd=S)
+        em = EstimationModel(**ctor_kwargs(args))
         raised = False
     except ValueError:
         raised = True
@@ -578,6 +653,35 @@ def direct_checks(args, seed, full=True):
         cor1 = em.correct_increments(dtu[1], out_i.iloc[1])
         if np.abs(cor1.values - R[1]).max() > 1e-9:
             bad('correct_undoes_apply', "Series form does not undo the error")
+    # ---- a walking bias whose CONSTANT part is exactly zero is still a bias the estimator has a state for:
+    #      the table must list it, and the table row of every sample must reproduce the applied error
+    if walk_axes:
+        bz = bv.copy()
+        zero_axes = [a for a in walk_axes if rng.random() < 0.7] or walk_axes[:1]
+        for a in zero_axes:
+            bz[a] = 0.0
+        Wn = np.array([[rng.choice([-8, -3, -1, 1, 2, 5]) / 8.0 for _ in range(3)] for _ in range(m)])
+        for ty in ('rate', 'increment'):
+            pz = Parameters(T, bz, ns_, ws_, rng=RS([Wn, Z]))
+            oz = pz.apply(df, ty)
+            tz = pz.data_frame
+            if list(tz.columns) != list(em.states):
+                bad('names', f"{ty}: constant bias 0 with bias_walk > 0 on axes {zero_axes}: data_frame columns "
+                             f"{list(tz.columns)} != states {list(em.states)}")
+                continue
+            errz = oz.values - R
+            for k in range(m):
+                xk = tz.values[k]
+                if ty == 'rate':
+                    hx = np.asarray(em.output_matrix(R[k])) @ xk
+                else:
+                    hx = (np.asarray(em.output_matrix(R[k] / dtu[k])) @ xk) * dtu[k]
+                if not np.array_equal(hx, errz[k]):
+                    bad('output_matrix_is_error', f"{ty} row {k}, zero constant bias + walk on {zero_axes}: "
+                                                  f"H x(table row) = {hx}, simulated error = {errz[k]}")
+                    break
+            if not np.any(tz[[f"bias_{XYZ[a]}" for a in zero_axes]].values[1:] != 0):
+                bad('variances_agree', f"{ty}: the walking bias of axes {zero_axes} never moves")
     # accumulate
     x1 = np.array([rng.randint(-6, 6) / 16.0 for _ in range(ns)])
     x2 = np.array([rng.randint(-6, 6) / 16.0 for _ in range(ns)])
@@ -660,8 +764,7 @@ def multi_model_checks(args_list, seed):
     fails = []
 
     def build(a):
-        b, n, w, S = arrays_of(a)
-        return EstimationModel(bias_sd=b, noise=n, bias_walk=w, scale_misal_sd=S)
+        return EstimationModel(**ctor_kwargs(a))
 
     def fresh_ok(em, who):
         if np.any(em.get_estimates().values != 0) or not np.array_equal(em.transform, np.eye(3)) or np.any(em.bias != 0):
@@ -743,6 +846,29 @@ ALLOW = {
 }
 
 
+def fixed_direct_cases():
+    """run first, in the main process: integer-typed / float32 / list / tuple / scalar / None constructor
+    arguments with whole-number values (the estimates must still be real numbers), and walking biases on
+    all axes (zero constant bias + walk in the simulator)."""
+    F = lambda b, w, n, s: dict(b=b, w=w, n=n, s=s)
+    ones9, diag9 = [16] * 9, [16, 0, 0, 0, 16, 0, 0, 0, 16]
+    cases = [
+        (dict(mask=-1, b=[8, 16, 8], w=[8, 0, 8], n=[8, 8, 0], s=diag9), F('list_int', 'list_int', 'tuple_int', 'i64')),
+        (dict(mask=-1, b=[0, 8, 8], w=[0, 0, 8], n=[8, 0, 8], s=[0, 16, 0, 16, 0, 0, 0, 0, 16]), F('i64', 'i64', 'i32', 'i32')),
+        (dict(mask=-1, b=[8, 8, 8], w=[8, 8, 8], n=[8, 8, 8], s=ones9), F('scalar_int', 'scalar_int', 'scalar_int', 'scalar_int')),
+        (dict(mask=-1, b=[8, 8, 8], w=[0, 0, 0], n=[0, 0, 0], s=[0] * 9), F('scalar_int', 'none', 'none', 'none')),
+        (dict(mask=-1, b=[8, -8, 16], w=[16, 0, 8], n=[0, 0, 0], s=[16, 0, -16, 0, 0, 0, 0, 32, 0]), F('tuple_int', 'i32', 'list_int', 'list_int')),
+        (dict(mask=-1, b=[3, 16, 5], w=[1, 2, 7], n=[4, 0, 9], s=[1, 0, 0, 3, 0, 0, 0, 0, 2]), F('f32', 'f32', 'f32', 'f32')),
+        (dict(mask=-1, b=[3, 16, 5], w=[1, 2, 7], n=[4, 0, 9], s=[1, 2, 3, 4, 5, 6, 7, 8, 9]), F('list_float', 'tuple_float', 'f64', 'tuple_float')),
+        (dict(mask=-1, b=[2, 2, 2], w=[1, 1, 1], n=[0, 0, 0], s=[0] * 9), F('scalar_float', 'scalar_float', 'none', 'none')),
+    ]
+    out = []
+    for a, f in cases:
+        a['forms'] = f
+        out.append(a)
+    return out
+
+
 def covered_functions():
     from pyins import inertial_sensor as m
     E, P = m.EstimationModel, m.Parameters
@@ -793,6 +919,20 @@ def corpus_checks():
     raises(ValueError, lambda: EstimationModel(bias_sd=[1.0, 2.0]), "bias_sd of shape (2,)")
     raises(ValueError, lambda: EstimationModel(scale_misal_sd=[1.0, 2.0, 3.0]), "scale_misal_sd of shape (3,)")
     raises(ValueError, lambda: EstimationModel(bias_sd=[0, 1, 1], bias_walk=[1, 0, 0]), "walk without bias")
+    # integer-typed arguments (an int enable mask, python ints, int lists): the ESTIMATES are still reals
+    for kw in (dict(bias_sd=1), dict(bias_sd=[1, 2, 1], bias_walk=[1, 0, 0]),
+               dict(bias_sd=np.array([0, 1, 1]), scale_misal_sd=np.eye(3, dtype=int)),
+               dict(bias_sd=(1, 1, 1), noise=np.float32(0.5), scale_misal_sd=np.ones((3, 3), dtype=np.float32))):
+        ei = EstimationModel(**kw)
+        xi = (np.arange(ei.n_states) + 1) / 16.0
+        ei.update_estimates(xi)
+        ei.update_estimates(xi / 2)
+        if not np.array_equal(ei.get_estimates().values, xi * 1.5):
+            bad.append(f"EstimationModel({kw}): estimates {ei.get_estimates().values.tolist()} != fed {list(xi * 1.5)}")
+        ei.reset_estimates()
+        ei.update_estimates(xi)
+        if not np.array_equal(ei.get_estimates().values, xi):
+            bad.append(f"EstimationModel({kw}) after reset: estimates {ei.get_estimates().values.tolist()} != fed {list(xi)}")
     # output_matrix: H itself / readings required / 1-d / stacked
     eb = EstimationModel(bias_sd=[1, 0, 2])
     if eb.output_matrix() is not eb.H and not np.array_equal(eb.output_matrix(), eb.H):
@@ -872,6 +1012,8 @@ def job_b(job):
             continue
         for p in pr:
             problems.append((args, p))
+        for fk, fv in args['forms'].items():
+            res['stats'][f"arg:{fv}"] = res['stats'].get(f"arg:{fv}", 0) + 1
         lits.append(lit)
         metas.append((args, summary))
         nsz = -1 if summary.get('raised') else summary['n'][0]
@@ -891,7 +1033,8 @@ def job_b(job):
     for args, p in problems[:5]:
         res['broken'].append((f"unrepresentable: {p}", dict(args=args)))
     res['n'] = len(lits)
-    res['keys'] = [(a['mask'], tuple(a['b']), tuple(a['w']), tuple(a['n']), tuple(a['s'])) for a, _ in metas]
+    res['keys'] = [(a['mask'], tuple(a['b']), tuple(a['w']), tuple(a['n']), tuple(a['s']),
+                    tuple(sorted(a['forms'].items()))) for a, _ in metas]
     res['samples'] = [dict(args=a, result={k: v for k, v in s.items() if k != 'ops'}) for a, s in metas[:2]]
     if lits:
         text = HEADER + "Definition cases : list bcase := [\n" + ";\n".join(lits) + "\n].\n" + \
@@ -1043,6 +1186,19 @@ def check(r):
                 r.broken('correspondence', 'fixed corpus (argument forms / validation)', msg)
         except Exception:
             r.broken('correspondence', 'fixed corpus crashed', traceback.format_exc()[-1500:])
+        fixed = fixed_direct_cases()
+        for k, a in enumerate(fixed):
+            try:
+                fl = direct_checks(a, 1000 + k, full=True)
+            except Exception:
+                fl = []
+                r.broken('correspondence', 'fixed direct case crashed', dict(args=a, tb=traceback.format_exc()[-1500:]))
+            for clause, msg in fl[:2]:
+                r.violation(f"{clause}: {msg}", dict(kind='direct', args=a, seed=1000 + k, clause=clause))
+            r.case(('fixed', k))
+        valid = [a for a in fixed if construct(a) is not None]
+        for clause, msg in multi_model_checks(valid[:3], 77)[:2] + multi_model_checks(valid[3:6], 78)[:2]:
+            r.violation(f"{clause}: {msg}", dict(kind='multi', args_list=valid[:6], seed=77, clause=clause))
     r.case(('corpus',))
     jobs = []
     corners = corner_masks()
@@ -1139,7 +1295,7 @@ def replay(obj):
         for k, a in enumerate(rep['args_list']):
             b, n, w, S = arrays_of(a)
             print("model %d: EstimationModel(bias_sd=%s, noise=%s, bias_walk=%s, scale_misal_sd=%s)" % (
-                k, b.tolist(), n.tolist(), w.tolist(), S.tolist()))
+                k, b.tolist(), n.tolist(), w.tolist(), S.tolist()), "forms:", a.get('forms'))
         print("model (Coq): estimates are a value of type `est` threaded through update/get; two models cannot share it")
         fl = multi_model_checks(rep['args_list'], rep['seed'])
     elif rep.get('kind') == 'direct':
@@ -1147,6 +1303,7 @@ def replay(obj):
         b, n, w, S = arrays_of(args)
         print("EstimationModel(bias_sd=%s, noise=%s, bias_walk=%s, scale_misal_sd=%s)" % (
             b.tolist(), n.tolist(), w.tolist(), S.tolist()))
+        print("  passed as:", {k: (type(v_).__name__, str(getattr(v_, 'dtype', ''))) for k, v_ in ctor_kwargs(args).items()})
         em = construct(args)
         if em is None:
             print("implementation: constructor raised ValueError")
